@@ -39,6 +39,8 @@ pub fn run_kestrel(w: &World, args: &[String]) -> CliObs {
     let mut cmd = Command::new(bin());
     cmd.args(args).current_dir(&dir).env_clear().stdin(Stdio::piped()).stdout(Stdio::piped()).stderr(Stdio::piped());
     for (k, v) in &w.env { cmd.env(k, v); }
+    // no controlling terminal: password prompts must fail instead of waiting for a human
+    unsafe { use std::os::unix::process::CommandExt; cmd.pre_exec(|| { libc::setsid(); Ok(()) }); }
     let mut obs = CliObs::default();
     let mut child = match cmd.spawn() { Ok(c) => c, Err(e) => { obs.stderr = format!("spawn failed: {}", e); let _ = std::fs::remove_dir_all(&dir); return obs; } };
     let mut stdin = child.stdin.take().unwrap();
